@@ -112,7 +112,7 @@ def subframe(f, shape):
     return {"cols": cs, "cell": {c: f["cell"][c] for c in cs}}
 
 
-def run(ctx):
+def _run_single(ctx):
     quick = ctx.tier == "quick"
     rng = ctx.rng
     cells = [0, 2]
@@ -235,6 +235,12 @@ def _execute_renamed(a, fs, pals, obs_pals):
     except Exception as e:
         rec["err"] = type(e).__name__ + ": " + str(e)[:100]
     return rec
+
+
+def run(ctx):
+    _run_single(ctx)
+    from props import c01
+    c01.histories_for(ctx, "C09", 300 if ctx.tier == "quick" else 4000)
 
 
 def replay(ctx, rp):
